@@ -18,19 +18,38 @@ from ..report import REPO, VERIF
 
 def load(prop):
     try:
-        return importlib.import_module(f"cijsa.selftest.{prop}").VARIANTS
+        own = list(importlib.import_module(f"cijsa.selftest.{prop}").VARIANTS)
     except ModuleNotFoundError:
-        return []
+        own = []
+    from .generic import GENERIC
+    import json
+    seeded = []
+    for meta in sorted((VERIF / "seeded").glob("*/meta.json")):
+        m = json.loads(meta.read_text())
+        if prop in m.get("detected_by", []):
+            seeded.append(dict(id=f"seeded-{m['id']}", patch=str(meta.parent / "patch.diff")))
+    return own + [dict(v, id=f"generic-{v['id']}") for v in GENERIC if prop in v["props"]] + seeded
 
 
 def run_variant(prop, var):
     tmp = Path(tempfile.mkdtemp(prefix=f"cijsa-{prop}-"))
     try:
-        shutil.copytree(REPO / "cij", tmp / "cij")
+        shutil.copytree(REPO / "cij", tmp / "cij", ignore=shutil.ignore_patterns("__pycache__"))
         for extra in ("examples",):
             if (REPO / extra).is_dir():
                 os.symlink(REPO / extra, tmp / extra)
-        edits = var["edits"] if "edits" in var else [(var["file"], var["old"], var["new"])]
+        if "patch" in var:
+            r0 = subprocess.run(["git", "init", "-q", "."], cwd=tmp, capture_output=True, text=True)
+            r1 = subprocess.run(["git", "apply", var["patch"]], cwd=tmp, capture_output=True, text=True)
+            if r1.returncode != 0:
+                return var, "stale", f"seeded patch does not apply: {r1.stderr[:200]}"
+        for file, old, new in var.get("replace_all", []):
+            pth = tmp / file
+            txt = pth.read_text()
+            if old not in txt:
+                return var, "stale", f"pattern does not occur in {file}"
+            pth.write_text(txt.replace(old, new))
+        edits = var["edits"] if "edits" in var else ([(var["file"], var["old"], var["new"])] if "file" in var else [])
         for file, old, new in edits:
             p = tmp / file
             s = p.read_text()
